@@ -581,6 +581,23 @@ func runC16(c *Ctx, r *Report, tier string) {
 						about = append(about, l.String())
 					}
 				}
+				if c.fname(fn) == "writeManPageCommand" {
+					// in the man page the aliases do not hang on any other attribute of the command: they are written
+					// under the conditions under which the command's options are written, plus having an alias
+					base := map[string]bool{}
+					for _, oc := range c.instrs(fn, c.isCallTo("writeManPageOptions")) {
+						for _, l := range c.depsOf(fn, oc) {
+							base[l.String()] = true
+						}
+					}
+					var extra []string
+					for _, l := range c.depsOf(fn, in) {
+						if !base[l.String()] && !strings.Contains(l.Term, "Command.Aliases(") {
+							extra = append(extra, trunc(l.String(), 70))
+						}
+					}
+					r.Check(len(extra) == 0, "ATTR", c.fname(fn), "man page lists a command's aliases under no further condition", c.ipos(in), "same guards as the command's option list, plus len(Aliases) > 0", "aliases are also conditional on "+strings.Join(extra, "; ")+": a command for which that fails is documented without its aliases")
+				}
 				okAl := len(about) == 1 && about[0] == "nonempty("+at+")"
 				r.Check(okAl, "ATTR", c.fname(fn), "aliases are listed whenever the command has any", c.ipos(in), "REQ(len(Aliases) > 0), no stronger test", "aliases are printed under "+strings.Join(about, " ∧ ")+": a command with fewer aliases than that is listed without them")
 			}
